@@ -1308,7 +1308,9 @@ pub fn decode_matches(buffer: &[u8]) -> Result<(Vec<Match>, usize)> {
     let mut matches = Vec::new();
     let mut total_bits = 0;
     
-    while reader.has_bits(CompressionType::type_bits()) {
+    // The shortest encoded match (Literal, NearShort) takes 8 bits and encode_matches pads
+    // the stream with up to 7 zero bits: fewer than 8 remaining bits are padding, not a match.
+    while reader.has_bits(8) {
         let (match_type, bits_consumed) = decode_match(&mut reader)?;
         matches.push(match_type);
         total_bits += bits_consumed;
